@@ -29,6 +29,7 @@ from vlib.val import line
 from vlib.compare import diff, Err
 
 ID = 'C04'
+PYBASIS_METHODS = ['insert_knot']   # basis.py methods re-translated and proved equal to the hand model each run
 # theorems of this property stated for the object evaluator `Obj.evaluate` (bridge through C02)
 EXTRA_THEOREMS = [('Splipy.Properties.Bridge', 'Splipy/Properties/Bridge.lean', 'Bridge_C04_')]
 RTOL = 1e-9
